@@ -3,7 +3,7 @@
    (regex level, over the terms generated from the source on this run) and
    Proof/C10CallSites.v (composition with the code around each gate). *)
 From Coq Require Import List NArith.
-From WV Require Import Lib.Regex Lib.PyBytes Gen.GenRegex Spec.Grammar Proof.C10Gates Proof.C10CallSites
+From WV Require Import Lib.Regex Lib.PyBytes Gen.GenRegex Spec.Grammar Proof.C10Gates Proof.C10CallSites Proof.C10RequestLine
   Model.Receiver Model.Parser.
 Import ListNotations.
 Local Open Scope N_scope.
@@ -65,3 +65,16 @@ Theorem C10_content_length_value : forall s x,
   dec_value (s ++ [x]) = (10 * dec_value s + (x - 48))%N.
 Proof. exact content_length_value_positional. Qed.
 Print Assumptions C10_content_length_value.
+
+(* request line as parse_header applies the gate (rstrip, CR/LF test, fullmatch,
+   upper-case method): exactly the grammar for every line without trailing
+   whitespace.  The full statement (no hypothesis on trailing whitespace) is
+   refuted by Findings/C10_KF1.v: open known finding kf_c10_reqline_ws. *)
+Definition C10_request_line_callsite_full : Prop := forall line, bytes_ok line ->
+  (request_line_accepts line = true <-> Lang spec_request_line line).
+
+Theorem C10_request_line_callsite_partial : forall line, bytes_ok line ->
+  rstrip_by is_bytes_ws line = line ->
+  (request_line_accepts line = true <-> Lang spec_request_line line).
+Proof. exact request_line_callsite_partial. Qed.
+Print Assumptions C10_request_line_callsite_partial.
